@@ -1,21 +1,24 @@
 #!/usr/bin/env python3
-"""For one behaviour-preserving refactoring: applies it to a scratch copy of /repo's committed tree and runs all 20 quick
-checks (no controls). Any non-zero exit is a false alarm. Prints a JSON line {src, alarms: {prop: [lines]}}."""
+"""For one behaviour-preserving refactoring: applies it to a scratch copy of /repo's committed tree and runs the rules of
+all 20 properties on it (wtcheck -all: one load, no controls, no evidence). Any report is a false alarm.
+Prints a JSON line {src, applies, alarms: {prop: [lines]}}. $WTCHECK selects the binary."""
 import json, os, re, shutil, subprocess, sys, tempfile
 src = sys.argv[1]
 scratch = tempfile.mkdtemp(prefix='wtbn', dir='/tmp')
-ev = tempfile.mkdtemp(prefix='wtev', dir='/tmp')
 try:
     subprocess.check_call('git -C /repo archive HEAD | tar -x -C ' + scratch, shell=True)
     rc = subprocess.run(['git', 'apply', os.path.join(src, 'patch.diff')], cwd=scratch, capture_output=True, text=True, env=dict(os.environ, GIT_CEILING_DIRECTORIES='/tmp'))
     out = {'src': src, 'applies': rc.returncode == 0, 'alarms': {}}
     if rc.returncode == 0:
-        for i in range(1, 21):
-            p = 'C%02d' % i
-            r = subprocess.run([os.environ.get('WTCHECK', '/verif/bin/wtcheck'), '-property', p, '-repo', scratch, '-no-controls', '-evidence-dir', ev], capture_output=True, text=True, cwd='/verif')
-            if r.returncode != 0:
-                out['alarms'][p] = [l[:400] for l in r.stdout.splitlines() if re.search(r'VIOLATED|UNDECIDED|panic', l)][:6]
+        r = subprocess.run([os.environ.get('WTCHECK', '/verif/bin/wtcheck'), '-all', '-repo', scratch], capture_output=True, text=True, cwd='/verif')
+        for l in r.stdout.splitlines():
+            m = re.match(r'^(C\d\d) FAIL (.*)', l)
+            if m:
+                out['alarms'].setdefault(m.group(1), []).append(m.group(2)[:400])
+            elif l.startswith('LOAD-FAILED') or 'panic' in l:
+                out['alarms'].setdefault('LOAD', []).append(l[:400])
+        if r.returncode != 0 and not out['alarms']:
+            out['alarms']['LOAD'] = [r.stdout[-400:] + r.stderr[-400:]]
     print(json.dumps(out))
 finally:
     shutil.rmtree(scratch, ignore_errors=True)
-    shutil.rmtree(ev, ignore_errors=True)
